@@ -56,6 +56,33 @@ def is_tracked(v):
     return False
 
 
+class _NotAFlag(Exception):
+    pass
+
+
+def _same_tree(a, b):
+    """Structural equality of two raw trees without events (ids differ between two evaluations of one continuation)."""
+    if isinstance(a, dict) and isinstance(b, dict):
+        if a.get("n") != b.get("n") or a.get("n") in ("ev", "loop"):
+            return False
+        ka = {x for x in a if x not in ("at",)}
+        kb = {x for x in b if x not in ("at",)}
+        return ka == kb and all(_same_tree(a[x], b[x]) for x in ka)
+    if isinstance(a, (list, tuple)) and isinstance(b, (list, tuple)):
+        return len(a) == len(b) and all(_same_tree(x, y) for x, y in zip(a, b))
+    return a == b
+
+
+def _mentions_exit(t, lid):
+    if isinstance(t, dict):
+        return any(_mentions_exit(v, lid) for v in t.values())
+    if isinstance(t, (list, tuple)):
+        if len(t) == 3 and t[0] == "exit" and t[1] == lid:
+            return True
+        return any(_mentions_exit(x, lid) for x in t)
+    return False
+
+
 class Unsupported(Exception):
     pass
 
@@ -493,27 +520,69 @@ class Evaluator:
         return out
 
     def do_loop(self, rng, scan, st, env, k, body_fn, loc):
+        """Loop node.  Cursors assigned in the body are loop-carried.  Other assigned locals are first treated as *exit flags*
+        (`let mut too_few = false; for .. { .. too_few = c; break }; if too_few {..}`): they keep their pre-loop value inside
+        the loop (verified at every CONTINUE), and a BREAK that leaves with another value continues into a copy of the code
+        after the loop specialised for that value — whose parts that equal the ordinary continuation become the BREAK again.
+        If a local does change from one iteration to the next, it is opaque (as before)."""
+        try:
+            return self._do_loop(rng, scan, st, env, k, body_fn, loc, flags=True)
+        except _NotAFlag:
+            return self._do_loop(rng, scan, st, env, k, body_fn, loc, flags=False)
+
+    def _do_loop(self, rng, scan, st, env, k, body_fn, loc, flags):
         lid = self.fresh()
         assigned = [v for v in self.assigned_vars(scan, st) if v in st]
         carried = [v for v in assigned if isinstance(st[v], tuple) and st[v] and st[v][0] == "cur"]
         others = [v for v in assigned if v not in carried and not (isinstance(st[v], tuple) and st[v] and st[v][0] in ("stack", "tracker"))]
+        # exit-flag candidates: plain boolean / literal locals; everything else that is assigned is opaque inside and after the loop
+        flagvars = [v for v in others if flags and isinstance(st[v], tuple) and st[v] and st[v][0] in ("bool", "lit")]
+        opaque = [v for v in others if v not in flagvars]
         st_body = dict(st)
         for j, v in enumerate(carried):
             st_body[v] = cur(("loop", lid, j))
-        for v in others:
+        for v in opaque:
             st_body[v] = ("opaque", "loopvar")
         entry = [st[v] for v in carried]
+        entry_flags = tuple(st[v] for v in flagvars)
+
+        def after_with(vals):
+            st_after = dict(st)
+            for j, v in enumerate(carried):
+                st_after[v] = cur(("exit", lid, j))
+            for v in opaque:
+                st_after[v] = ("opaque", "loopvar")
+            for v, x in zip(flagvars, vals):
+                st_after[v] = x
+            return k(UNIT, st_after)
+        after = after_with(entry_flags)
 
         def leaf(kind):
-            return lambda s: {"n": "leaf", "kind": kind, "loop": lid, "upd": tuple(s[v] for v in carried)}
+            def mk(s):
+                lf = {"n": "leaf", "kind": kind, "loop": lid, "upd": tuple(s[v] for v in carried)}
+                if not flagvars:
+                    return lf
+                vals = tuple(s[v] for v in flagvars)
+                if vals == entry_flags:
+                    return lf
+                if kind == "continue":
+                    raise _NotAFlag()
+                special = after_with(vals)
+                return self._exit_merge(special, after, lf, lid)
+            return mk
         body = body_fn(st_body, lid, leaf("continue"), leaf("break"))
-        st_after = dict(st)
-        for j, v in enumerate(carried):
-            st_after[v] = cur(("exit", lid, j))
-        for v in others:
-            st_after[v] = ("opaque", "loopvar")
-        after = k(UNIT, st_after)
         return {"n": "loop", "id": lid, "range": rng, "entry": tuple(entry), "body": body, "after": after, "at": loc}
+
+    def _exit_merge(self, special, after, brk, lid):
+        """The code after the loop, specialised for the flag values of one BREAK: subtrees equal to the ordinary continuation
+        are that BREAK; subtrees that do not look at the loop's exit cursors stay where they are (inside the loop body)."""
+        if _same_tree(special, after):
+            return brk
+        if not _mentions_exit(special, lid):
+            return special
+        if special["n"] == "opq":
+            return {"n": "opq", "cond": special["cond"], "arms": [(lab, self._exit_merge(sub, after, brk, lid)) for lab, sub in special["arms"]]}
+        raise _NotAFlag()
 
     # ------------------------------------------------------------------ expressions
 
@@ -846,8 +915,72 @@ class Evaluator:
             return self.do_loop(rng, some_arm["body"], s, env, k, body_fn, loc)
         return self.ev(it_expr, st, env, with_iter)
 
+    def counter_loop(self, e, st):
+        """`while i < E { body; i += 1 }` with `i` a plain local counter that the body neither assigns nor skips over with `continue`:
+        returns (var of i, node of E, body statements without the increment) — the loop is `for i in <i's value>..E { body }`."""
+        b = e["body"]
+        inner = b.get("tail") if not b.get("stmts") else None
+        if inner is None or inner["k"] != "if" or "else" not in inner:
+            return None
+        cond = inner["cond"]
+        if not (cond["k"] == "binary" and cond["op"] == "<" and cond["l"]["k"] == "local"):
+            return None
+        var = cond["l"]["var"]
+        if not (isinstance(st.get(var), tuple) and st[var] and st[var][0] == "lit"):
+            return None
+        els = inner["else"]
+        brk = els.get("tail") if els["k"] == "block" and not els.get("stmts") else (els["stmts"][0].get("e") if els["k"] == "block" and len(els.get("stmts", [])) == 1 else els)
+        if not (brk and brk["k"] == "break"):
+            return None
+        then = inner["then"]
+        stmts = then.get("stmts", []) if then["k"] == "block" else []
+        if not stmts or "tail" in then:
+            return None
+        last = stmts[-1]
+        inc = last.get("e") if last["k"] == "expr" else None
+        if not (inc and inc["k"] == "assign_op" and inc["op"] == "+=" and inc["l"]["k"] == "local" and inc["l"]["var"] == var
+                and inc["r"]["k"] == "lit" and (inc["r"]["v"] or {}).get("int") == "1"):
+            return None
+        rest = {"k": "block", "unsafe": False, "stmts": stmts[:-1]}
+        for n in walk(rest):
+            if n["k"] in ("assign", "assign_op") and n["l"]["k"] == "local" and n["l"]["var"] == var:
+                return None
+            if n["k"] == "addr_of" and n.get("mut") and n["e"]["k"] == "local" and n["e"]["var"] == var:
+                return None
+            if n["k"] == "continue" and n.get("target") in (None, e.get("id")):
+                return None
+        # the bound must be loop-invariant and free of effects: constants, literals and locals the body does not assign
+        assigned = {n["l"]["var"] for n in walk(rest) if n["k"] in ("assign", "assign_op") and n["l"]["k"] == "local"}
+        assigned |= {n["e"]["var"] for n in walk(rest) if n["k"] == "addr_of" and n.get("mut") and n["e"]["k"] == "local"}
+        for n in walk(cond["r"]):
+            if n["k"] == "local" and (n["var"] == var or n["var"] in assigned):
+                return None
+            if n["k"] not in ("local", "lit", "def", "cast", "use", "field", "block"):
+                return None
+        return var, cond["r"], rest
+
     def ev_loop(self, e, st, env, k):
         loc = self.loc(env, e)
+        cl = self.counter_loop(e, st)
+        if cl is not None:
+            var, bound, rest = cl
+
+            def with_bound(bv, s):
+                rng = ("range", "Range", (("start", s[var]), ("end", bv)))
+
+                def body_fn(st_body, lid, kcont, kbreak):
+                    lenv = env.with_()
+                    lenv.loops[e["id"]] = (kbreak, kcont)
+                    s2 = dict(st_body)
+                    s2[var] = ("idx", lid)
+                    return self.ev(rest, s2, lenv, lambda v, s3: kcont(s3))
+
+                def after(v, s2):
+                    s3 = dict(s2)
+                    s3[var] = ("opaque", "counter")
+                    return k(v, s3)
+                return self.do_loop(rng, rest, s, env, after, body_fn, loc)
+            return self.ev(bound, st, env, with_bound)
 
         def body_fn(st_body, lid, kcont, kbreak):
             lenv = env.with_()
@@ -963,6 +1096,11 @@ class Evaluator:
             r = self.option_method(base[len("core::option::Option::"):], vs, st, env, k, loc)
             if r is not None:
                 return r
+        if base in ("core::bool::<impl bool>::then", "core::bool::<impl bool>::then_some") and len(vs) == 2:
+            # `c.then(|| x)` / `c.then_some(x)`  ==  `if c { Some(x) } else { None }`
+            if base.endswith("then_some"):
+                return self.branch(vs[0], st, lambda s: k(some(vs[1]), s), lambda s: k(NONE, s))
+            return self.branch(vs[0], st, lambda s: self.apply(vs[1], [], s, env, lambda v, s2: k(some(v), s2), loc), lambda s: k(NONE, s))
         if base == "core::array::from_fn":
             f = vs[0]
             nconst = None
